@@ -72,6 +72,17 @@ def _case(kind):
         P.check_eq("point_wrt_self", np.dot(Jps, Bp), Dps, deriv=True)
         Dpp = P.derivative(lambda d: (p + (q + d)).to_array(), COMPACT[pt])
         P.check_eq("point_wrt_point", np.dot(Jpp, Bq), Dpp, deriv=True)
+        # every call returns a fresh array: editing a result must not leak into later calls
+        import numpy
+
+        for mname, args in [("jacobian_self_oplus_other_wrt_self", (o,)), ("jacobian_self_oplus_other_wrt_other", (o,)), ("jacobian_self_ominus_other_wrt_self", (o,)), ("jacobian_self_ominus_other_wrt_other", (o,)), ("jacobian_self_oplus_other_wrt_self_compact", (o,)), ("jacobian_self_oplus_other_wrt_other_compact", (o,)), ("jacobian_self_ominus_other_wrt_self_compact", (o,)), ("jacobian_self_ominus_other_wrt_other_compact", (o,)), ("jacobian_boxplus", ()), ("jacobian_self_oplus_point_wrt_self", (q,)), ("jacobian_self_oplus_point_wrt_point", (q,)), ("jacobian_inverse", ())]:
+            first = getattr(p, mname)(*args)
+            keep = numpy.array(first, copy=True)
+            first *= 0.25
+            first[0, :] = 7.0
+            again = getattr(p, mname)(*args)
+            P.check("%s:fresh_array" % mname, not numpy.shares_memory(first, again))
+            P.check_eq("%s:unaffected_by_edit" % mname, again, keep)
         # inverse
         Ji = p.jacobian_inverse()
         P.check("shape_inverse", tuple(np.shape(Ji)) == (n, n))
